@@ -18,7 +18,8 @@ the same on the real code, is reported as a violation.
 
 Process-global state (coq/VM/ApiGlobal.v, Properties_C15b.v): the IEEE status word and the scanner's pending string
 buffer are threaded through histories of compiles, calls and host arithmetic; process_history_as_in_fresh_process holds
-under `reinitialises` (every tested flag is cleared first, the opening quote always starts a new buffer), which
+under `reinitialises` (every tested flag is cleared first; the opening quote always starts a new buffer or the end of
+the input inside a literal frees it), which
 process_reinit_necessary shows to be necessary.  measure_reinit_policy() reads both policies from the tree's sources;
 the residue family checks the hypothesis on the real code (host `fpraise` of each flag, float effects at run time and
 in constant folding, compiles ending in every scanner situation, then observers vs a fresh process).
@@ -1557,6 +1558,8 @@ def measure_reinit_policy(repo):
             body = m.group(1)
             out["opening_quote_rule"] = " ".join(body.split())[:160]
             out["alloc_always"] = "string_new" in body and re.search(r"\bif\s*\(", body) is None
+        m = re.search(r'^<C_STRING><<EOF>>\s*\{(.*?)^\}', lex, re.S | re.M)
+        out["eof_frees"] = bool(m and "string_delete" in m.group(1) and re.search(r"string_value\s*=\s*NULL", m.group(1)))
     except OSError:
         pass
     return out
@@ -1631,7 +1634,7 @@ def run(ctx):
     ctx.coverage["process_state_policy_measured(VM/ApiGlobal.v)"] = rp
     if rp.get("tested_subset_of_cleared") is None or rp.get("alloc_always") is None:
         ctx.correspondence_broken("process-state-policy-not-measurable", rp)
-    elif not (rp["tested_subset_of_cleared"] and rp["alloc_always"]):
+    elif not (rp["tested_subset_of_cleared"] and (rp["alloc_always"] or rp.get("eof_frees"))):
         ctx.correspondence_broken("process-state-reinit-hypothesis(Properties_C15b.process_history_as_in_fresh_process)",
                                   {"measured": rp, "meaning": "the tree does not satisfy `reinitialises`: by process_reinit_necessary a "
                                    "history exists whose last operation differs from a fresh process; the residue family searches for it"})
